@@ -113,7 +113,11 @@ def run_impl(case):
             async with cache.transaction(mode=mode):
                 for k, r in roles.items():
                     if "D" in r:
-                        await cache.delete(k)
+                        if r == "BD" and len(k) % 2 == 0:      # the stored key is first overwritten in the block, then removed with delete_many
+                            await cache.set(k, "tmp:" + k)
+                            await cache.delete_many(k)
+                        else:
+                            await cache.delete(k)
                 for k, r in roles.items():
                     if "L" in r:
                         await cache.set(k, "v:" + k)
